@@ -24,21 +24,33 @@ func (a addr) Network() string { return "tcp" }
 func (a addr) String() string  { return string(a) }
 
 type fakeStream struct {
-	name string
-	mu   sync.Mutex
-	fail bool
-	got  []int
+	name    string
+	mu      sync.Mutex
+	cond    *sync.Cond
+	fail    bool
+	stalled bool // Send blocks (the replica does not read) until the stall ends or the connection breaks
+	got     []int
+}
+
+func msgID(b []byte) int {
+	if len(b) >= 2 {
+		return int(b[0]) + 256*int(b[1])
+	}
+	return int(b[0])
 }
 
 func (s *fakeStream) Send(r *pb.GetWALStreamResponse) error {
 	verifhook.At("Stream.send", s.name) // the handler has taken a message from its channel and is about to send it
 	s.mu.Lock()
 	defer s.mu.Unlock()
+	for s.stalled && !s.fail {
+		s.cond.Wait()
+	}
 	if s.fail {
 		return errors.New("transport is closing")
 	}
 	if len(r.TransactionGroup) > 0 {
-		s.got = append(s.got, int(r.TransactionGroup[0]))
+		s.got = append(s.got, msgID(r.TransactionGroup))
 	}
 	return nil
 }
@@ -65,6 +77,7 @@ func stream(name string) *fakeStream {
 	s, ok := streams[name]
 	if !ok {
 		s = &fakeStream{name: name}
+		s.cond = sync.NewCond(&s.mu)
 		streams[name] = s
 	}
 	return s
@@ -74,6 +87,7 @@ type xarg struct {
 	R   string `json:"r"`
 	Msg int    `json:"msg"`
 	Ms  int    `json:"ms"`
+	N   int    `json:"n"`
 }
 
 func arg(o *drv.Op) xarg {
@@ -115,11 +129,62 @@ func init() {
 		s := stream(arg(o).R)
 		s.mu.Lock()
 		s.fail = true
+		s.cond.Broadcast()
 		s.mu.Unlock()
 		return drv.Obs{"ok": true}
 	}
+	drv.Extra["fan_stall"] = func(c *drv.Ctx, o *drv.Op) drv.Obs { // the replica stops reading: Send blocks from now on
+		s := stream(arg(o).R)
+		s.mu.Lock()
+		s.stalled = true
+		s.mu.Unlock()
+		return drv.Obs{"ok": true}
+	}
+	drv.Extra["fan_unstall"] = func(c *drv.Ctx, o *drv.Op) drv.Obs {
+		s := stream(arg(o).R)
+		s.mu.Lock()
+		s.stalled = false
+		s.cond.Broadcast()
+		s.mu.Unlock()
+		return drv.Obs{"ok": true}
+	}
+	// hand over `n` transaction groups msg, msg+1, ...; gives up (blocked: true) when the sender does not accept one within ms
+	drv.Extra["fan_send_many"] = func(c *drv.Ctx, o *drv.Op) drv.Obs {
+		x := arg(o)
+		ms := x.Ms
+		if ms == 0 {
+			ms = 3000
+		}
+		for i := 0; i < x.N; i++ {
+			id := x.Msg + i
+			ok := make(chan struct{})
+			go func() { sender.Send([]byte{byte(id % 256), byte(id / 256)}); close(ok) }()
+			select {
+			case <-ok:
+			case <-time.After(time.Duration(ms) * time.Millisecond):
+				return drv.Obs{"blocked": true, "accepted": i}
+			}
+		}
+		return drv.Obs{"ok": true, "accepted": x.N}
+	}
+	// wait until replica r has received n messages (or ms elapsed)
+	drv.Extra["fan_wait"] = func(c *drv.Ctx, o *drv.Op) drv.Obs {
+		x := arg(o)
+		s := stream(x.R)
+		deadline := time.Now().Add(time.Duration(x.Ms) * time.Millisecond)
+		for {
+			s.mu.Lock()
+			n := len(s.got)
+			s.mu.Unlock()
+			if n >= x.N || time.Now().After(deadline) {
+				return drv.Obs{"n": n, "reached": n >= x.N}
+			}
+			time.Sleep(5 * time.Millisecond)
+		}
+	}
 	drv.Extra["fan_send"] = func(c *drv.Ctx, o *drv.Op) drv.Obs { // the WAL writer hands a committed TG to the sender
-		sender.Send([]byte{byte(arg(o).Msg)})
+		id := arg(o).Msg
+		sender.Send([]byte{byte(id % 256), byte(id / 256)})
 		return drv.Obs{"ok": true}
 	}
 	drv.Extra["fan_state"] = func(c *drv.Ctx, o *drv.Op) drv.Obs {
